@@ -208,13 +208,131 @@ def build(pl, r):
     return text, exp, outcome, cnt
 
 
+def build_switch(r):
+    """Programs that switch between ON ERROR GOTO and ON ERROR RESUME NEXT while errors happen alternately at module level
+    and inside procedures.  -> (text, expected list of printed value tuples)"""
+    lines = ['DIM SHARED zd%', 'zmainv& = 41777', ': '.join(f'zfill{i} = {i}' for i in range(1, 9))]
+    procs = []
+    exp = []
+    mode = None
+    tag = [41000]
+    k = [0]
+
+    def T():
+        tag[0] += 1
+        return tag[0]
+    seq = [r.choice('GN')] + [r.choice('MSFGNMSFR') for _ in range(r.randint(4, 9))]
+    data = []
+    for b in seq:
+        if b == 'G':
+            lines.append('ON ERROR GOTO zh')
+            mode = 'goto'
+        elif b == 'N':
+            lines.append('ON ERROR RESUME NEXT')
+            mode = 'next'
+        elif b == 'M':
+            t = T()
+            lines += ['zq% = 77', 'zq% = 7 + 10 \\ zd%', f'PRINT {t}&; zmainv&; zq%']
+            if mode == 'goto':
+                exp.append(('H', 41777))
+            exp.append((t, 41777, 77))
+        elif b == 'R':
+            # a READ that fails (text into a numeric variable) must not consume its item
+            t = T()
+            data.append(f'txt{t}')
+            lines += ['zn% = 0', 'READ zn%', 'READ zs$', f'PRINT {t}&; zs$; zn%']
+            if mode == 'goto':
+                exp.append(('H', 41777))
+            exp.append((t, f'txt{t}', 0))
+        elif b == 'S':
+            k[0] += 1
+            t1, t2 = T(), T()
+            loc = 50000 + k[0]
+            lines += [f'zsub{k[0]}', f'PRINT {t2}&; zmainv&']
+            procs += [f'SUB zsub{k[0]}', f'zl{k[0]}& = {loc}', 'zx% = 5', 'zx% = 5 + 10 \\ zd%', f'PRINT {t1}&; zl{k[0]}&; zx%', 'END SUB']
+            if mode == 'goto':
+                exp.append(('H', 41777))
+            exp.append((t1, loc, 5))
+            exp.append((t2, 41777))
+        else:
+            k[0] += 1
+            t1, t2 = T(), T()
+            loc = 60000 + k[0]
+            lines += [f'zr% = 3 + zfn{k[0]}%(2)', f'PRINT {t2}&; zmainv&; zr%']
+            procs += [f'FUNCTION zfn{k[0]}% (a%)', f'zl{k[0]}& = {loc}', 'zx% = 5', 'zx% = a% + 10 \\ zd%', f'PRINT {t1}&; zl{k[0]}&; zx%',
+                      f'zfn{k[0]}% = 9', 'END FUNCTION']
+            if mode == 'goto':
+                exp.append(('H', 41777))
+            exp.append((t1, loc, 5))
+            exp.append((t2, 41777, 12))
+    lines += ['END', 'zh: PRINT 42001&; zmainv&; ERR', 'RESUME NEXT']
+    if data:
+        lines.append('DATA ' + ', '.join(data))
+    return '\n'.join(lines + procs) + '\n', exp, ''.join(seq)
+
+
+def run_switch(case):
+    r = random.Random(case['seed'])
+    st = {'programs_run': 0, 'planted_failures': 0, 'handler_entries_expected': 0, 'resumes_expected': 0, 'depth_checks': 0,
+          'modes': ['switching'], 'places': ['mixed'], 'mode_switch_programs': 0}
+    viol = []
+    shapes = []
+    sample = None
+    for j in range(case['n']):
+        text, exp, key = build_switch(r)
+        O = (case['seed'] + j) % 3
+        c = rt.compile_src(text, O, True)
+        if c.status != 'ok':
+            viol.append(V(f'C10:program-rejected:{c.sig or c.err_code}', f'{c.brief()} {c.msg}', text=text))
+            continue
+        holder = {}
+
+        def factory(cpu):
+            holder['d'] = mon.StmtBoundaryDepth()
+            return [holder['d']]
+        run = rt.run_module(rt.load_module(c.modbytes), {}, max_ticks=30000, cpu_class=mon.with_monitors(factory))
+        st['programs_run'] += 1
+        st['mode_switch_programs'] += 1
+        st['planted_failures'] += sum(1 for e in exp if e[0] != 'H') // 1
+        st['handler_entries_expected'] += sum(1 for e in exp if e[0] == 'H')
+        st['resumes_expected'] += sum(1 for ch in key if ch in 'MSFR')
+        st['depth_checks'] += holder['d'].count
+        shapes.append('switch|' + key)
+        got = []
+        for e in run.history:
+            if e[0] != 'print' or not e[1]:
+                continue
+            vals = [x[2] for x in e[1] if isinstance(x, list) and x[0] == 'v']
+            if vals and vals[0] == 42001:
+                got.append(('H', vals[1] if len(vals) > 1 else None))
+            else:
+                got.append(tuple(vals))
+        ctx = f'O{O}g [mode switches {key}]'
+        if got != exp or run.outcome != ['halt']:
+            idx = next((i for i, (a, b) in enumerate(zip(got, exp)) if a != b), min(len(got), len(exp)))
+            viol.append(V('C10:mode-switch-trace', f'{ctx}: event {idx}: expected {exp[idx] if idx < len(exp) else None}, observed '
+                          f'{got[idx] if idx < len(got) else None}; run ended {run.outcome} (line {run.trap_line}) {run.stdout[-100:]!r}',
+                          text=text))
+            continue
+        for sig, msg in holder['d'].viol:
+            viol.append(V('C10:partial-results-left-on-stack', f'{ctx}: {msg}', text=text))
+        if sample is None:
+            sample = {'program': text[:500], 'expected_trace': [list(e) for e in exp], 'mode': 'switching'}
+    return {'viol': viol, 'stats': st, 'shape': shapes, 'nontrivial': bool(shapes), 'sample': sample}
+
+
 def gen_cases(tier, seed):
     n = 800 if tier == 'quick' else 8000
     B = 20
-    return [{'seed': seed * 100003 + i, 'n': B} for i in range(0, n, B)]
+    cs = [{'seed': seed * 100003 + i, 'n': B} for i in range(0, n, B)]
+    ns = 160 if tier == 'quick' else 3000
+    cs += [{'kind': 'switch', 'seed': seed * 70001 + i, 'n': B} for i in range(0, ns, B)]
+    return cs
 
 
 def run_case(case):
+    if case.get('kind') == 'switch':
+        return run_switch(case)
     r = random.Random(case['seed'])
     st = {'programs_run': 0, 'planted_failures': 0, 'handler_entries_expected': 0, 'resumes_expected': 0, 'depth_checks': 0,
           'modes': [], 'places': []}
